@@ -8,6 +8,7 @@ import z3
 
 from . import libmodels
 from . import pdagg  # noqa: F401  (registers the aggregate model)
+from . import sortedindex  # noqa: F401  (registers the sorted-index model)
 from .engine import Run, _Break, _Continue, _Return
 from .values import (SArr, UNDEF, MaybeUnbound, PathDead, SBoundLib, SClass, SEnumMember, SExcClass, SFunc, SIdx,
                      SLib, SObj, SOpaque, SSel, SSeq, SStr, SVec, SymRaise, Undefined, Unsupported,
@@ -1137,7 +1138,12 @@ class Interp:
                         return m.bind(obj.obj)
             raise Unsupported(f"super().{name} not found in the bases the engine reads", node)
         if isinstance(obj, SLib):
-            return SLib(obj.dotted + "." + name)
+            d = obj.dotted + "." + name
+            d2 = "numpy." + d[3:] if d.startswith("np.") else "pandas." + d[3:] if d.startswith("pd.") else d
+            consts = getattr(libmodels, "LIB_CONSTANTS", {})
+            if d2 in consts:
+                return consts[d2]
+            return SLib(d)
         if isinstance(obj, SExcClass) and name == "__name__":
             return obj.name
         if hasattr(obj, "sym_getattr"):
